@@ -240,7 +240,7 @@ PROPS["C13"]["structural"] = [
 ]
 
 import contracts.lot_partitions as _LP
-_PART = sorted(_LP.CONTRACTS)
+_PART = sorted(_LP.CONTRACTS)  # evaluated at import: includes the inner chunk loops
 PROPS["C08"]["functions"] = _PART
 PROPS["C08"]["level_text"] = ("Deductive (unbounded): every row-blocking loop of linear_optimal_transport.py (9 block loops in lot_vectors_sparse / dense / dense_generator, "
     "sinkhorn_vectors_sparse and the transform methods, 2 chunk loops in the *_internal kernels) is a partition of [0, n_rows): blocks are consecutive, start at 0, end at "
@@ -303,3 +303,9 @@ PROPS["C03"]["structural"] = [
 PROPS["C09"]["structural"] = [
     st("mixed_gram_vectorizer.py", "BytePairEncodingVectorizer.transform", "same-branch", other="BytePairEncodingVectorizer.fit_transform", test="self.return_type == 'tokens'"),
 ]
+
+import contracts.glue as _GL
+_TK = "vectorizers/token_cooccurrence_vectorizer.py::numba_build_skip_grams"
+for _p in ("C04", "C10"):
+    PROPS[_p]["functions"] += sorted(_GL.CONTRACTS) + [_TK]
+PROPS["C03"]["functions"] += [_TK]
